@@ -336,6 +336,11 @@ def run_mixed(cfg, out):
                     w.remove_client(x)
                 c = connect_at(w, r.choice([0, 65100, 65530]), run.C)
                 c.updates_per_step = 2
+                # the reactor thread that encodes and sends the server's packets is busy now and then: it gets to the batches of up to
+                # three ticks at once
+                w.reactor_lag = [0, 1, 2, 3][(cfg["shard"] + case + cfg["seed"]) % 4]
+                if w.reactor_lag:
+                    run.c.inc("worlds_with_reactor_lag")
                 # the very first datagram of the session (the hello) is duplicated / replayed later, while the server
                 # application has messages queued in the same tick
                 first = {}
@@ -405,6 +410,44 @@ def run_mixed(cfg, out):
                     if c.addr not in w.ctxt.connections:
                         run.c.inc("server_timed_out_client_while_sending")
                     run.c.inc("datagrams_until_server_timeout", run.c.get("wire_s2c", 0) - n0)
+                # ---- the cipher fails (memory) while the plain thread server's send path encodes a packet: whatever that path does
+                #      about it, nothing it hands to the socket carries application bytes in clear
+                import mpgameserver.server as _SV
+                import mpgameserver.crypto as _CR
+                CN_ = run.C
+                sent_raw = []
+
+                class _Sock(object):
+                    def sendto(self, d, a):
+                        sent_raw.append(bytes(d))
+                key_ = bytes(range(16))
+                pkts = []
+                for k_ in range(3):
+                    pl_ = L.make_payload(0, 700000 + k_, 48)
+                    hdr_ = CN_.PacketHeader.create(True, int(w.clock.now), CN_.PacketType.APP, CN_.SeqNum(100 + k_), CN_.SeqNum(1), 0)
+                    pkts.append((CN_.Packet.create(hdr_, [CN_.PendingMessage(CN_.SeqNum(50 + k_), CN_.PacketType.APP, pl_, None, 0)]), key_, ("10.77.0.%d" % k_, 7)))
+                orig_enc = _CR.encrypt_gcm
+                for fail_at in (0, 1, 2):
+                    calls_ = [0]
+
+                    def enc(*a_, _f=fail_at, **kw_):
+                        calls_[0] += 1
+                        if calls_[0] - 1 == _f:
+                            raise MemoryError("cipher context allocation failed")
+                        return orig_enc(*a_, **kw_)
+                    _CR.encrypt_gcm = enc
+                    old_sock = getattr(w.thread, "sock", None)
+                    w.thread.sock = _Sock()
+                    try:
+                        _SV.UdpServerThread.send(w.thread, pkts)
+                    except Exception:
+                        run.c.inc("thread_send_raised_on_cipher_failure(observation)")
+                    finally:
+                        _CR.encrypt_gcm = orig_enc
+                        w.thread.sock = old_sock
+                    run.c.inc("cipher_failures_in_thread_send")
+                if any(L.MAGIC in d_ for d_ in sent_raw):
+                    run.report("C03", "plaintext-on-wire", "with the cipher failing, UdpServerThread.send handed a datagram with application bytes in clear to the socket")
                 total += run.c.get("wire_total", 0)
                 out["distinct"].add(h64("mixed", key))
                 finish_run(run, out, key)
@@ -425,7 +468,7 @@ def finish(tier, seed, results):
     inconclusive = []
     need(m["counters"], ["wire_gcm", "nonces_recorded", "wire_server_hello_clear", "silent_peer_datagrams", "silent_wraps",
                          "mirror_same_time_seq_ack_in_both_directions", "wire_c2s", "wire_s2c", "idlespin_spins",
-                         "client_hello_replayed_after_key_agreement", "client_wait_for_disconnect_calls", "datagrams_during_wait_for_disconnect", "failed_connects_with_early_sends", "blackouts_with_pending_sends", "livespin_spins", "livespin_instant_acks",
+                         "client_hello_replayed_after_key_agreement", "client_wait_for_disconnect_calls", "datagrams_during_wait_for_disconnect", "failed_connects_with_early_sends", "blackouts_with_pending_sends", "livespin_spins", "livespin_instant_acks", "worlds_with_reactor_lag", "reactor_batches_delayed", "cipher_failures_in_thread_send",
                          "server_timed_out_client_while_sending"], inconclusive)
     cov = {
         "evaluations": m["evaluations"],
